@@ -33,6 +33,13 @@ CHECKS = {
          NOTE_COMMON + 'Non-interference => data-race freedom is argued by hand.', 'DFCC frame obligations + static-lifetime symbol scan'),
  'C17': ('proof', 'Shared fields are single oracle rows; per pair (canonical view, other view) a client lemma proves read-identically, write-through-one/read-through-other in both directions for every shared field, with all four accessors replaced by their contracts.', '§5 C17',
          NOTE_COMMON, 'client lemmas over generated contracts'),
+
+ 'C07': ('proof', 'Avtp_Vss_SetVssPath and, per datatype code, Avtp_Vss_SetVssData are enforced against the reference encoding of acf-vss.md (big-endian integers, IEEE-754 bit patterns compared as integers, 16-bit big-endian byte-length prefix, element order; ghost element index), for both address modes plus reserved modes/datatypes (nothing written), path lengths up to 65533 and value lengths up to 65535 bytes, exact-extent buffers with symbolic slack; array loops are closed by loop contracts; quick tier covers 11 representative codes, thorough all 24 + 4 reserved.', '§4.4 §5 C07',
+         NOTE_COMMON + 'Per-datatype specialisation: Avtp_Vss_GetDatatype is replaced by its contract instance at the code (itself enforced on the real getter). Byte-order helpers are inlined (loop-free).', 'CBMC code contracts per datatype + loop contracts on the array loops'),
+ 'C08': ('proof', 'Avtp_Vss_GetVssPath, Avtp_Vss_CalcVssPathLength and, per datatype code, Avtp_Vss_GetVssData are enforced on symbolic well-formed messages of exactly their on-wire size: results equal the reference decoding (bit-exact floats, ghost element index), destination NULL => only the length is assigned, destinations are exact-extent so a write past the reported length or a read past the message fails; array loops closed by loop contracts. Known finding: path size of 65534/65535-byte paths wraps the uint16 return type.', '§4.4 §5 C08',
+         NOTE_COMMON + 'Round trip follows from encoder and decoder being proved against the same reference encoding.', 'CBMC code contracts per datatype + loop contracts on the array loops'),
+ 'C10': ('other', 'BOUNDED stand-in, not a proof: packer, counter and unpacker are enforced against their contracts for lists of at most 3 (quick) / 5 (thorough) strings, every string length symbolic 0..65535, requested counts greater/equal/smaller than the packed count, exact-extent source and destination buffers, loops unwound with unwinding assertions; plus the type-level fact that the counter\'s return type carries every possible count. Prefix-sum offsets cannot be expressed in CBMC loop invariants without quantifiers.', '§5 C10',
+         NOTE_COMMON + 'Bound on the number of strings; lists longer than the bound are not covered.', 'CBMC code contracts with bounded unwinding (unwinding assertions)'),
 }
 NA = {
  'C15': 'alignment- and optimisation-level behaviour are outside CBMC\'s byte-addressed memory model and outside source-level contracts (DESIGN.md §5 C15)',
